@@ -1,2 +1,3 @@
 //! One module per claimed property.
+pub mod c01;
 pub mod c18;
